@@ -841,6 +841,10 @@ impl CommandExecutor for DrawExecutor {
                 if parameters.len() != 2 {
                     return Err(anyhow::anyhow!("ColorSet command requires 2 arguments"));
                 }
+                // pens are 0..=15: anything else would index pen_colors out of bounds when the picture is read back
+                if !(0..=15).contains(&parameters[1]) {
+                    return Err(anyhow::anyhow!("ColorSet unknown/unsupported pen: {}", parameters[1]));
+                }
                 match parameters[0] {
                     0 => self.polymarker_color = parameters[1] as u8,
                     1 => self.line_color = parameters[1] as u8,
